@@ -686,12 +686,12 @@ example : dup 2 4 exObj = (.ok 5, { exObj with heap := exObj.heap.push (.arr [3]
 /-- property_write_seen_by_all: a property write on the object succeeds -/
 example : ∃ s', setProperty 3 "p" 0 exObj = (.ok (), s') := ⟨_, rfl⟩
 
-/-- **acyclicity is not an invariant of the evaluator** (DESIGN §6 C07 `acyclic_preserved`): 合并 stores the elements of its
-argument lists by reference, so `以 A（合并：【A】）` — cell 1 is `A = 【1】`, cell 2 is the literal `【A】` — makes `A` an
-element of itself; by `dup_on_cycle_never_returns` no copying site returns on it any more (the Go process recurses
-until its stack is exhausted — confirmed on the real code, reported under C10). -/
-example : builtinMethod 1 1 "合并" [2] ({ heap := #[.num 1, .arr [0], .arr [1]] } : VM Int) =
-    (.ok 3, { heap := #[.num 1, .arr [0, 1], .arr [1], .arr [0, 1]] }) := by rfl
+/-- (history) on the pinned tree 合并 stored the elements of its argument lists by reference, so `以 A（合并：【A】）` made `A`
+an element of itself and no copying site returned on it any more (`dup_on_cycle_never_returns`; the Go process recursed
+until its stack was exhausted). Repaired in /repo (合并 stores copies, commit bf7aa9c); the model's 合并 now `dup`s every
+merged item: cell 1 is `A = 【1】`, cell 2 is the literal `【A】`; the merged item is a fresh copy (cell 4), not cell 1. -/
+example : (builtinMethod 3 1 "合并" [2] ({ heap := #[.num 1, .arr [0], .arr [1]] } : VM Int)).2.heap[1]? =
+    some (.arr [0, 4]) := by rfl
 example (n : Nat) : (dup n 1 ({ heap := #[.num 1, .arr [0, 1], .arr [1], .arr [0, 1]] } : VM Int)).1 = .fuel :=
   dup_on_cycle_never_returns n _ 1 rfl rfl
 
